@@ -2,6 +2,7 @@
 //! partitions and a simulated network (DESIGN.md §4 E4; properties C28, C29, C30, C32, C33).
 
 pub mod corpus;
+pub mod mx;
 pub mod net;
 pub mod p28;
 pub mod p28c;
@@ -101,6 +102,40 @@ macro_rules! seq_macro_lite {
     }};
 }
 
+/// const-generic dispatch tables for the matrix-composer entries (fn pointers cannot capture)
+fn mx_plain<const I: usize>(sim: &mut Sim) -> Outcome {
+    crate::guard(mx::all()[I].name, sim, |sim| mx::run(I, false, sim))
+}
+fn mx_weak<const I: usize>(sim: &mut Sim) -> Outcome {
+    crate::guard(mx::all()[I].name, sim, |sim| mx::run(I, true, sim))
+}
+macro_rules! d8 {
+    ($v:ident, $f:ident, $b:expr) => {
+        $v.push($f::<{ $b }>); $v.push($f::<{ $b + 1 }>); $v.push($f::<{ $b + 2 }>); $v.push($f::<{ $b + 3 }>);
+        $v.push($f::<{ $b + 4 }>); $v.push($f::<{ $b + 5 }>); $v.push($f::<{ $b + 6 }>); $v.push($f::<{ $b + 7 }>);
+    };
+}
+macro_rules! d64 {
+    ($v:ident, $f:ident, $b:expr) => {
+        d8!($v, $f, $b); d8!($v, $f, $b + 8); d8!($v, $f, $b + 16); d8!($v, $f, $b + 24);
+        d8!($v, $f, $b + 32); d8!($v, $f, $b + 40); d8!($v, $f, $b + 48); d8!($v, $f, $b + 56);
+    };
+}
+macro_rules! d512 {
+    ($f:ident) => {{
+        let mut v: Vec<simcore::runner::RunFn> = Vec::with_capacity(512);
+        d64!(v, $f, 0); d64!(v, $f, 64); d64!(v, $f, 128); d64!(v, $f, 192);
+        d64!(v, $f, 256); d64!(v, $f, 320); d64!(v, $f, 384); d64!(v, $f, 448);
+        v
+    }};
+}
+/// scenarios for the matrix entries selected by `pick`
+fn mx_scenarios(weak: bool, pick: fn(&mx::Mx) -> bool) -> Vec<Scenario> {
+    let table = if weak { d512!(mx_weak) } else { d512!(mx_plain) };
+    assert!(mx::all().len() <= table.len(), "more than 512 matrix entries: extend d512");
+    mx::all().iter().enumerate().filter(|(_, m)| pick(m)).map(|(i, m)| Scenario { name: m.name, weight: 1, run: table[i] }).collect()
+}
+
 const REAL: &[&str] = &[
     "hydro_lang IR construction (live_collections::*, location::*)",
     "hydro_lang::compile::ir emit_core with ProdDfirBuilder (production code generation)",
@@ -133,6 +168,7 @@ fn main() {
                 // hand-written corpus (with specs) + composer-generated flows (schedule independence only)
                 let mut v = scenarios!(p28);
                 v.extend(scenarios!(p28c));
+                v.extend(mx_scenarios(false, mx::in_c28));
                 v
             },
             quick_runs: 1_000_000,
@@ -153,7 +189,11 @@ fn main() {
         },
         Prop {
             id: "C29",
-            scenarios: scenarios!(p29),
+            scenarios: {
+                let mut v = scenarios!(p29);
+                v.extend(mx_scenarios(false, mx::in_c29));
+                v
+            },
             quick_runs: 1_000_000,
             thorough_runs: 40_000_000,
             rule: "each run picks one corpus flow with a totally ordered output (map/filter/flat_map_ordered/enumerate/scan/limit/unique/partition/bounded-side joins/TCP hops) or a keyed stream whose per-key order is made observable by an ordered per-key fold (per-key vec/scan/enumerate+limit/fold/reduce/first, cluster->process per member, process->cluster demux), draws input items (<= 12) and executes it under two independently seeded schedules: tick partition, network schedule and - for keyed inputs - two different cross-key interleavings of the same per-key subsequences; keyed flows run a third time with only one key's items. Distinct = distinct hash of (entry, realised decision trace); non-trivial = at least one item flowed AND the two runs differ in partition, interleaving or network schedule.",
@@ -169,7 +209,11 @@ fn main() {
         },
         Prop {
             id: "C30",
-            scenarios: scenarios!(p30),
+            scenarios: {
+                let mut v = scenarios!(p30);
+                v.extend(mx_scenarios(false, mx::in_c30));
+                v
+            },
             quick_runs: 3_000_000,
             thorough_runs: 200_000_000,
             rule: "each run picks one corpus flow of the form input.batch(&tick, nondet!) -> <tick operators> -> all_ticks() (production-generated code), draws knobs (length <= 8, value/key domain, partition mode), input items per embedded input, and the partition of every input into ticks (all-at-once, singletons, random gaps, bursts, leading/trailing empty ticks; different inputs partitioned independently) plus 2-4 trailing empty ticks. Distinct = distinct hash of (entry, realised decision trace); non-trivial = at least one item flowed AND the partition differs from everything-in-tick-0.",
@@ -186,7 +230,11 @@ fn main() {
         },
         Prop {
             id: "C32",
-            scenarios: scenarios!(p32),
+            scenarios: {
+                let mut v = scenarios!(p32);
+                v.extend(mx_scenarios(true, mx::in_c32));
+                v
+            },
             quick_runs: 2_000_000,
             thorough_runs: 150_000_000,
             rule: "one corpus flow per library-internal assume_ordering_trusted / assume_retries_trusted call site (Stream::{max,min,first,last,count,is_empty,repeat_with_keys,weaken_ordering,make_totally_ordered,weaken_retries,make_exactly_once}, KeyedStream::{weaken_ordering,make_totally_ordered,weaken_retries,make_exactly_once,value_counts}, KeyedSingleton::{into_singleton x3 code paths, get_max_key}; top-level and in-tick variants), input typed as weakly as the public signature allows. Each run draws an input (<= 6 items per input), applies a seeded transformation admitted by that type (permutation for NoOrder; duplication for AtLeastOnce - anywhere if unordered, directly after the original if totally ordered; cross-key interleaving for keyed inputs with fixed per-key order) and a seeded tick partition. Distinct = distinct hash of (entry, realised decision trace); non-trivial = at least one item flowed AND (the input was actually permuted/duplicated/re-interleaved OR the partition is non-canonical).",
